@@ -1534,6 +1534,64 @@ func run(c *mon.Ctx) {
 	c.Floor("handle.own_mid_reordered", 500)
 	c.Floor("handle.own_components_reordered", 500)
 	c.Stream("decoded-edit", c.N(8000, 4000000), func(i int, r *gen.Rand) { decodedEdit(c, r) })
+	// a decoded splice_insert in component splice mode (components only come from decoding), with timed components,
+	// then flags and values of the command are changed: the next encoding is the canonical section of the new
+	// values - a component's splice_time() is there exactly when splice_immediate_flag is 0
+	c.Floor("decoded_component_insert.made_immediate", 100)
+	c.Stream("decoded-component-insert-edited", c.N(1500, 300000), func(i int, r *gen.Rand) {
+		s := ref.GenSig(r, false)
+		s.Cmd, s.Cancel, s.Prog, s.Imm = 0x05, false, false, false
+		s.Ptr, s.CW, s.EncAlg = 0, 0, 0
+		s.Comps = nil
+		for k := 1 + r.Intn(4); k > 0; k-- {
+			s.Comps = append(s.Comps, ref.InsComp{Tag: r.Byte(), HasPTS: !r.Chance(4), PTS: r.U33()})
+		}
+		x, err := scte35.NewSCTE35(s.Payload())
+		c.Eval(1)
+		if err != nil || x == nil {
+			c.Fail("component-insert:decode-error", fmt.Sprintf("a canonical section was rejected: %v", err), wit{Shape: s35.Shape(&s), Input: mon.Hex(s.Payload())})
+			return
+		}
+		in, ok := x.CommandInfo().(scte35.SpliceInsertCommand)
+		if !ok || in.IsProgramSplice() || in.SpliceImmediate() {
+			return // reported by C08
+		}
+		var log []string
+		for k := 1 + r.Intn(3); k > 0; k-- {
+			switch r.Intn(5) {
+			case 0, 1:
+				in.SetSpliceImmediate(true)
+				s.Imm = true
+				log = append(log, "SetSpliceImmediate(true)")
+				c.Count("decoded_component_insert.made_immediate")
+			case 2:
+				f := r.Bool()
+				in.SetIsOut(f)
+				s.Out = f
+				log = append(log, fmt.Sprintf("SetIsOut(%v)", f))
+			case 3:
+				v := r.Uint32()
+				in.SetEventID(v)
+				s.Event = v
+				log = append(log, fmt.Sprintf("SetEventID(%d)", v))
+			default:
+				v := uint16(r.Intn(65536))
+				in.SetUniqueProgramId(v)
+				s.UPID16 = v
+				log = append(log, fmt.Sprintf("SetUniqueProgramId(%d)", v))
+			}
+		}
+		got, want := x.UpdateData(), s.Section()
+		c.Eval(1)
+		if !bytes.Equal(got, want) {
+			c.Fail("component-insert:encoding-after-edit", fmt.Sprintf("a decoded splice_insert with %d components (component splice mode, not immediate), then %v: the encoding is not the canonical section of the new values", len(s.Comps), log), wit{Shape: s35.Shape(&s), Input: mon.Hex(s.Payload()), Got: mon.Hex(got), Want: mon.Hex(want), Detail: fmt.Sprint(log)})
+			return
+		}
+		if y, err := scte35.NewSCTE35(append([]byte{0}, got...)); err != nil || y == nil || !bytes.Equal(y.UpdateData(), got) {
+			c.Fail("component-insert:roundtrip-after-edit", fmt.Sprintf("the encoding after %v cannot be decoded, or encodes to other bytes again: %v", log, err), wit{Shape: s35.Shape(&s), Got: mon.Hex(got), Detail: fmt.Sprint(log)})
+		}
+		c.Class(fmt.Sprintf("component-insert/comps=%d/imm=%v", len(s.Comps), s.Imm))
+	})
 	// a decoded section with foreign descriptors at several positions, then a shorter list of segmentation descriptors
 	// is set: every foreign descriptor is still there, in the order it came in, and encoding stays idempotent
 	c.Floor("list_replaced.cases", 300)
